@@ -6,11 +6,13 @@
    same member, singular sub-messages merge recursively, unknown bytes append) and the merging
    decoder of Msg/MsgDec.v ([msg_decode_into] = UnmarshalOptions{Merge:true}).
 
-   [msg_valid] is the canonical-value predicate of C03 (Msg/MsgValid.v), with the two restrictions
-   named there ([grp_unknown]: a group-typed value carries no unknown bytes of its own;
-   [slow_groups]: no group-typed fields on the reflection path); the theorems that assume it are
-   therefore named _partial.  Note that the DESTINATION of a merge is arbitrary in
-   C07_unmarshal_merge_option_partial: only the source must be a canonical value.
+   [msg_valid] is the canonical-value predicate of C03 (Msg/MsgValid.v).  Since WP-B completed C03 it
+   has no restriction on the table-driven path; on the reflection path ([slow] = true) it demands
+   that group-typed values pass the wire scanner ([msg_group_scans], finding FB3 of C03).  The
+   suffix _partial of the theorems that assume it now only stands for this FB3 exclusion built
+   into [msg_valid] for [slow] = true; for [slow] = false they are the full statements.  Note that
+   the DESTINATION of a merge is arbitrary in C07_unmarshal_merge_option_partial: only the source
+   must be a canonical value.
 
    The clause "Unmarshal(x || y) = Merge(Unmarshal x, Unmarshal y) for all decodable x, y" of the
    property text is refuted by the faithful model (C07_concat_eq_merge_refuted_FA6: an explicit
